@@ -1,3 +1,5 @@
+\* TLC -simulate: MaxItems items per program, Orgs = load addresses (incl. one straddling a page / near the top of
+\* memory), WithVectors = 2-byte big-endian vectors as indirect entries (6800), MaxEntries direct entry addresses
 CONSTANTS IsaName = "4004" Cpu = "4004" MaxItems = 10 Orgs = {0, 256, 490} WithVectors = FALSE MaxEntries = 4
 INIT Init
 NEXT Next
